@@ -33,6 +33,11 @@ def cases(thorough):
     hist = [rx(["H", "H"], ["H2"]), rx(["He", "CR"], ["He+", "e-"], t=101), rx(["He+", "H"], ["He", "H+"]), rx(["C", "O"], ["CO"]), rx(["H", "CO"], ["HCO"]), rx(["H+", "e-"], ["H"])]
     out.append(Case("RN-history-remove-element", {"reactions": hist, "network": {}, "ops": [{"op": "exec", "code": "_ = net.elements\nnet.remove_reaction([i for i, r in enumerate(net.reaction_list) if any(s.name.startswith('He') for s in r.reactants + r.products)])\n"}]}))
     out.append(Case("RN-history-require-atom", {"reactions": [hist[0], hist[3], hist[4], hist[5]], "network": {}, "ops": [{"op": "exec", "code": "_ = net.elements\nnet.required_species = ['He', 'N']\n"}]}))
+    # upper-case element spellings renamed by a replacement table (the UCLCHEM example's set-up): He and Si are elements
+    ucl = "\n".join(["H,H,NAN,H2,NAN,NAN,NAN,1e-17,0.0,0.0,0,0", "HE,CRP,NAN,HE+,E-,NAN,NAN,0.5,0.0,0.0,10,41000", "HE+,H,NAN,HE,H+,NAN,NAN,1e-9,0.0,0.0,10,41000", "SI,O,NAN,SIO,NAN,NAN,NAN,1e-10,0.0,0.0,10,41000",
+                     "SIO,H+,NAN,SI+,OH,NAN,NAN,1e-9,0.0,0.0,10,41000", "O,H,NAN,OH,NAN,NAN,NAN,1e-10,0.0,0.0,10,41000", "HEH+,E-,NAN,HE,H,NAN,NAN,1e-8,-0.5,0.0,10,41000", "SI+,E-,NAN,SI,NAN,NAN,NAN,1e-11,-0.6,0.0,10,41000"]) + "\n"
+    out.append(Case("RN-ucl-upper", {"files": [{"name": "u.ucl", "content": ucl}], "pre": [{"op": "exec", "code": "from naunet.species import Species\nSpecies._replacement = {'E': 'e', 'HE': 'He', 'SI': 'Si'}\n"}],
+                                     "network": {"filelist": "u.ucl", "fileformats": "uclchem", "elements": ["E", "H", "HE", "C", "O", "SI"], "pseudo_elements": ["CR", "CRP", "PHOTON", "CRPHOT"]}}))
     if thorough:
         out.append(Case("RN-SiS", {"reactions": [rx(["Si", "O"], ["SiO"]), rx(["S", "O"], ["SO"]), rx(["Si+", "e-"], ["Si"]), rx(["SiO", "H+"], ["Si+", "OH"]), rx(["O", "H"], ["OH"]), rx(["H", "H"], ["H2"]), rx(["Si", "CR"], ["Si+", "e-"], t=101), rx(["Mg", "H+"], ["Mg+", "H"]), rx(["Fe", "H+"], ["Fe+", "H"])], "network": {}}))
     return out
